@@ -243,6 +243,17 @@ func (ts *Terms) compute(v ssa.Value, fr *Frame, depth int) *Term {
 		return ts.of(x.X, fr, depth+1)
 	case *ssa.Slice:
 		if x.Low == nil && x.High == nil {
+			if el := variadicElems(x); len(el) > 0 {
+				t := mk("call", "varargs")
+				for _, e := range el {
+					if e == nil {
+						t.Args = append(t.Args, mk("nil", ""))
+						continue
+					}
+					t.Args = append(t.Args, ts.of(e, fr, depth+1))
+				}
+				return t
+			}
 			return ts.of(x.X, fr, depth+1)
 		}
 		return mk("index", "slice", ts.of(x.X, fr, depth+1), ts.of(x.Low, fr, depth+1), ts.of(x.High, fr, depth+1))
